@@ -371,9 +371,10 @@ func init() {
 		l := loops[a[0]]
 		insts["__loop"] = &l.implInst
 		defer delete(insts, "__loop")
+		before := appBefore(l)
 		out := implOps["env.app"]([]string{"__loop", a[1]})
 		if strings.HasPrefix(out, "ok") {
-			trackApp(l, a[1])
+			trackApp(l, a[1], before)
 		}
 		return out
 	}
@@ -461,6 +462,7 @@ func init() {
 			implOps["loop.app"]([]string{a[0], a[4]})
 			return finish(implOps["loop.go"](a[:4]))
 		}
+		before := appBefore(l)
 		opened := make(chan struct{})
 		hold := make(chan struct{})
 		done := make(chan string, 1)
@@ -482,7 +484,7 @@ func init() {
 			time.Sleep(2 * time.Millisecond) // the loop reaches env.Update and waits for the lock
 			close(hold)
 			if out := <-done; strings.HasPrefix(out, "ok") {
-				trackApp(l, a[4])
+				trackApp(l, a[4], before)
 			}
 			delete(insts, "__loopheld")
 		}
